@@ -23,11 +23,13 @@
 //@ check w_c12_flush      kind=bounded bound=pipelining-with-every-split-point-of-a-3-command-stream fn=run_on
 //@ check w_c13_errors     kind=bounded bound=all-defined-codes,4-messages,4-reporting-sites fn=run_on
 //@ check w_c14_counts     kind=bounded bound=12-u64-boundary-values-squared,zero-column-row-counts-0..=3,300 fn=run_on
+//@ check w_c15_ints       kind=bounded bound=12-integer-columns(6-types-x-signedness),4-boundary-classes-via-generic-values,1-row-via-fixed-width-types fn=run_on
 //@ check w_c16_c17_stmt   kind=bounded bound=6-scripts-of-executions-and-long-data-over-2-statements fn=run_on
 //@ check w_c20_malformed kind=bounded bound=48-odd-or-malformed-client-inputs(USE-spellings,unknown-and-truncated-commands,empty-payloads,fragment-ids,all-256-command-bytes) fn=run_on
 //@ check w_c19_faults     kind=bounded bound=every-truncation-point-and-every-failing-transport-operation-of-a-6-command-conversation,every-failing-operation-of-a-conversation-with-multi-packet-responses fn=run_on
 #![allow(dead_code, unused_imports, unused_variables, clippy::all)]
 use crate::{Column, ColumnFlags, ColumnType, ErrorKind, InitWriter, MysqlIntermediary, MysqlShim, ParamParser, QueryResultWriter, StatementMetaWriter};
+use crate::myc;
 use std::cell::RefCell;
 use std::io::{self, Read, Write};
 use std::rc::Rc;
@@ -482,6 +484,37 @@ impl TShim {
                     }
                     w.end_row()?;
                 }
+                w.finish()
+            }
+            "ints" => {
+                // every integer column type x signedness; one row per boundary class, written as generic
+                // integer values (narrowed by the library to the smallest containing type) and as the
+                // fixed-width Rust type of the column
+                let tys = [ColumnType::MYSQL_TYPE_TINY, ColumnType::MYSQL_TYPE_SHORT, ColumnType::MYSQL_TYPE_YEAR, ColumnType::MYSQL_TYPE_INT24, ColumnType::MYSQL_TYPE_LONG, ColumnType::MYSQL_TYPE_LONGLONG];
+                let mut cols = vec![];
+                for t in tys.iter() { for uns in [false, true] { cols.push(vcol("n", *t, if uns { ColumnFlags::UNSIGNED_FLAG } else { ColumnFlags::empty() })); } }
+                let mut w = results.start(&cols)?;
+                for class in 0..4 {
+                    for (j, c) in cols.iter().enumerate() {
+                        let uns = j % 2 == 1;
+                        let bits: u32 = match c.coltype { ColumnType::MYSQL_TYPE_TINY => 8, ColumnType::MYSQL_TYPE_SHORT | ColumnType::MYSQL_TYPE_YEAR => 16, ColumnType::MYSQL_TYPE_LONGLONG => 64, _ => 32 };
+                        if uns {
+                            let max = if bits == 64 { u64::MAX } else { (1u64 << bits) - 1 };
+                            let v = [0u64, 1, max - 1, max][class];
+                            // (generic UInt is only accepted by UNSIGNED BIGINT: "not as lenient with unsigned ints")
+                            if bits == 64 { w.write_col(myc::value::Value::UInt(v))?; } else { w.write_col(myc::value::Value::Int(v as i64))?; }
+                        } else {
+                            let min = if bits == 64 { i64::MIN } else { -(1i64 << (bits - 1)) };
+                            let v = [min, -1, 1, -(min + 1)][class];
+                            w.write_col(myc::value::Value::Int(v))?;
+                        }
+                    }
+                    w.end_row()?;
+                }
+                // the same through the fixed-width Rust types
+                w.write_col(-128i8)?; w.write_col(255u8)?; w.write_col(-32768i16)?; w.write_col(65535u16)?; w.write_col(-1i16)?; w.write_col(2155u16)?;
+                w.write_col(-2147483648i32)?; w.write_col(4294967295u32)?; w.write_col(-1i32)?; w.write_col(1u32)?; w.write_col(i64::MIN)?; w.write_col(u64::MAX)?;
+                w.end_row()?;
                 w.finish()
             }
             "notnull" => {
@@ -1047,6 +1080,45 @@ fn w_c14_counts() {
         cases += 1;
     }
     println!("VERIF-NATIVE w_c14_counts cases={} nontrivial={}", cases, cases);
+}
+
+#[test]
+fn w_c15_ints() {
+    // integers of every column type and signedness, decoded with the ADVERTISED column type and flags
+    let r = converse(hs41(b"u", 0), &[(c_query(b"setexec=ints"), 0), (c_prepare(b"p:1:0:0"), 0), (c_execute(1, &[], true), 0), quit()], vec![], false, None, None);
+    assert!(r.result.is_ok(), "[C15.w.run] integer resultset failed: {:?}", r.result);
+    let m = replies(&r);
+    let mut i = 3;
+    let units = parse_response(&m, &mut i).expect("[C15.w.grammar] response not conformant");
+    let mut cases = 0;
+    if let Resp::Rs { cols, rows, .. } = &units[0] {
+        assert!(cols.len() == 12 && rows.len() == 5, "[C15.w.grammar] expected 12 columns and 5 rows, got {} and {}", cols.len(), rows.len());
+        let tys: Vec<(u8, bool)> = cols.iter().map(|c| (c.ty, c.flags & 32 != 0)).collect();
+        for (j, (ty, uns)) in tys.iter().enumerate() {
+            let want_ty = [1u8, 2, 13, 9, 3, 8][j / 2];
+            assert!(*ty == want_ty && *uns == (j % 2 == 1), "[C15.w.meta] column {} advertised as type {} unsigned={} but declared type {} unsigned={}", j, ty, uns, want_ty, j % 2 == 1);
+        }
+        for (class, row) in rows.iter().enumerate() {
+            let vals = bin_row(row, &tys).unwrap_or_else(|e| panic!("[C15.w.row] integer row {} malformed: {}", class, e));
+            for (j, v) in vals.iter().enumerate() {
+                let bits: u32 = match tys[j].0 { 1 => 8, 2 | 13 => 16, 8 => 64, _ => 32 };
+                let want = if class < 4 {
+                    if j % 2 == 1 {
+                        let max = if bits == 64 { u64::MAX } else { (1u64 << bits) - 1 };
+                        BinVal::U([0u64, 1, max - 1, max][class])
+                    } else {
+                        let min = if bits == 64 { i64::MIN } else { -(1i64 << (bits - 1)) };
+                        BinVal::I([min, -1, 1, -(min + 1)][class])
+                    }
+                } else {
+                    [BinVal::I(-128), BinVal::U(255), BinVal::I(-32768), BinVal::U(65535), BinVal::I(-1), BinVal::U(2155), BinVal::I(-2147483648), BinVal::U(4294967295), BinVal::I(-1), BinVal::U(1), BinVal::I(i64::MIN), BinVal::U(u64::MAX)][j].clone()
+                };
+                assert!(v == &want, "[C15.w.exact] row {} column {} (type {}, unsigned {}): client decodes {:?}, written {:?}", class, j, tys[j].0, tys[j].1, v, want);
+                cases += 1;
+            }
+        }
+    } else { panic!("[C15.w.grammar] not a resultset") }
+    println!("VERIF-NATIVE w_c15_ints cases={} nontrivial={}", cases, cases);
 }
 
 #[test]
